@@ -197,7 +197,7 @@ func c02Enumerate(tier string, seed int64, emit func(string, any)) {
 			one("D statements", append(append([]*Node{}, init...), c, s))
 		}
 		// nesting depth 2
-		if thorough || i%3 == 0 {
+		if thorough || (i%3+i/3)%3 == 0 { // (not i%3: the compounds come in triples if / while / while, and every kind must occur nested)
 			one("D nested", append(append([]*Node{}, init...), &Node{K: KWhile, A: Bin("<", x, Int(3)), Body: []*Node{inc, c}}, Arr(x, y)))
 			one("D nested", append(append([]*Node{}, init...), &Node{K: KIf, A: Int(1), Body: []*Node{c, inc}}, Arr(x, y)))
 			one("D nested", append(append([]*Node{}, init...), &Node{K: KFunc, S: "g", Params: []string{"x"}, Body: []*Node{c, x}}, Call(Var("g"), Int(1)), Arr(x, y)))
@@ -259,6 +259,8 @@ func c02Enumerate(tier string, seed int64, emit func(string, any)) {
 		obs := Arr(a, b)
 		for i, o1 := range all {
 			one("F containers and aliasing", append(append([]*Node{}, in...), o1, obs))
+			// the same operation as the only statement of a template block (most leave no value: the block contributes nothing)
+			one("F container operation inside a template block", append(append([]*Node{}, in...), Assign("t", &Node{K: KTpl, Kids: []*Node{Str("<"), {K: KHole, Style: 2, Body: []*Node{o1}}, Str(">")}}), Arr(Var("t"), a, b)))
 			for j, o2 := range all {
 				one("F containers and aliasing", append(append([]*Node{}, in...), o1, o2, obs))
 				if thorough {
